@@ -324,7 +324,7 @@ class Sim:
         self.caller_bufs = []
 
     def as_buf(self, vals, lab):
-        """Hand values over as list / float64 array / float32-safe array."""
+        """Hand values over as list / float64 array / 2-D array."""
         k = self.cs.draw(lab + ".buf", 3)
         if k == 0:
             b = list(vals)
@@ -334,6 +334,13 @@ class Sim:
             b = np.array(vals, dtype=np.float64).reshape(1, -1)
         self.caller_bufs.append(b)
         return b
+
+    def as_buf32(self, vals, lab):
+        """float32 array of the values: returns (buffer, the float64 values it
+        really holds)."""
+        b = np.array(vals, dtype=np.float32)
+        self.caller_bufs.append(b)
+        return b, [float(x) for x in np.array(b, dtype=np.float64)]
 
     # ---- vector operations --------------------------------------------
     def op_new(self):
@@ -427,7 +434,20 @@ class Sim:
             x, c = gen_value(cs, m.mins[i], m.maxs[i], nanw, f"e{i}")
             vals.append(x)
             classes.append(c)
-        buf = self.as_buf(vals, "sv")
+        if m.n and cs.flip("float32", 15) and \
+                all(abs(x) < 1e30 or x != x or abs(x) == INF for x in vals):
+            # single-precision caller buffer: what is assigned is the float32
+            # rounding of the drawn values (classes relative to the bounds may
+            # shift by one rounding; the model uses the values really passed)
+            buf, vals = self.as_buf32(vals, "sv")
+            classes = ["f32"] * len(vals)
+            if any(lo - 1e-6 * max(1, abs(lo)) < x < lo or
+                   hi < x < hi + 1e-6 * max(1, abs(hi))
+                   for x, lo, hi in zip(vals, m.mins, m.maxs)):
+                return      # within the tolerance band of a bound: not drawn
+            self.ctx.hit("probe.float32_buffer_assigned")
+        else:
+            buf = self.as_buf(vals, "sv")
         self.log.ev("set_values", vid, vals, classes)
         try:
             v.values = buf
@@ -567,7 +587,11 @@ class Sim:
             elif k == "unknown_key":
                 v["__nokey__"] = 1.0
             elif k == "nan_all":
-                vals = list(m.values)
+                # other elements get new in-bounds values, so that a partial
+                # store before the rejection shows
+                vals = [clip1(gen_value(cs, m.mins[j], m.maxs[j], 0,
+                                        f"rj{j}")[0], m.mins[j], m.maxs[j])
+                        for j in range(m.n)]
                 vals[cs.draw("i", m.n)] = NAN
                 # make the other elements different so a partial store shows
                 v.values = self.as_buf(vals, "rj")
